@@ -469,6 +469,36 @@ def r9_definitions_matched_by_identity(idx, r):
               msg="restoreBackup selects the kept parameters by membership of the definition in the keep-set")
 
 
+def r10_validity_flags(idx, r):
+    """Block.derivedMustUpdate says whether the cached volume of the block's derived-shape component is stale.  It is consumed (set False) by
+    the first volume query and is not a parameter, so the backup does not cover it: a change pending when the scope opened, consumed inside the
+    scope, leaves after the roll-back a restored (stale) cached volume with a cleared flag.  The restore must therefore re-arm the flag on
+    every path (recomputing is always right)."""
+    blk = idx.cls("armi.reactor.blocks.Block")
+    consumers = [f for m in idx.modules.values() if m.name.startswith("armi.reactor") and ".tests" not in m.name for f in m.all_funcs()
+                 if any(s_.attr == "derivedMustUpdate" and norm(s_.value) == "False" and s_.chain != "self.derivedMustUpdate" for s_ in iter_stores(f.node))]
+    if not consumers:
+        raise AnchorMissing("a consumer that clears <block>.derivedMustUpdate")
+    f = blk.methods.get("restoreBackup")
+    if f is None:
+        r.violate("Block.restoreBackup:re-arms-derivedMustUpdate", blk, "Block inherits restoreBackup unchanged: the derived-shape validity flag is neither saved nor re-armed, so a pending geometry change "
+                  "consumed inside a retainState scope leaves the restored (stale) derived volume marked as current")
+        return
+
+    def ev(nd):
+        if isinstance(nd, ast.Assign) and norm(nd) == "self.derivedMustUpdate = True":
+            return ["armed"]
+        if isinstance(nd, ast.Call) and ((dotted(nd.func) or "").endswith(".restoreBackup") or is_super_restore(nd)):
+            return ["base"]
+        return []
+
+    def is_super_restore(nd):
+        return isinstance(nd.func, ast.Attribute) and nd.func.attr == "restoreBackup" and isinstance(nd.func.value, ast.Call) and dotted(nd.func.value.func) == "super"
+    fl = Flow(f.node, ev).run()
+    bad = [e for e in fl.normal_exits() if e.state.get("armed", (0, 0))[0] < 1 or e.state.get("base", (0, 0))[0] < 1]
+    r.require(not bad, "Block.restoreBackup:re-arms-derivedMustUpdate", f, msg="after the roll-back the derived shape must be marked for recomputation on every path, and the base restore must run")
+
+
 def run(idx, chk):
     chk.explanation = (
         "C16: StateRetainer's enter/exit symmetry and traversal; every backUp/restoreBackup pair in the tree pushing and popping a stack with "
@@ -491,3 +521,5 @@ def run(idx, chk):
                  necessary="parameters named to be kept retain their new values (the keep-set is applied only when the collection reports an assignment)")
     chk.run_rule("R16.9", "parameter definitions are matched against the keep-set by identity (hash mixes in id(self) while equality is by name)", lambda r: r9_definitions_matched_by_identity(idx, r), floor=2,
                  necessary="exactly the parameters named in the keep-set keep their new values; everything else is rolled back")
+    chk.run_rule("R16.10", "the roll-back re-arms the validity flag of the block's derived-shape volume (it is not part of the saved state)", lambda r: r10_validity_flags(idx, r), floor=1,
+                 necessary="after the scope every derived value (volumes included) is that of the restored state")
